@@ -25,7 +25,8 @@ pub static PROP: Prop = Prop {
            all 2744 operator triples x sampled decorations, all placements of one ?: with <=1 operator per slot and \
            else-nested ?: chains; expected tree from an independent precedence-climbing parser. random: trees to depth 8 \
            rendered minimal/full/random-redundant parentheses x tight/single/random whitespace (incl. tabs and newlines); \
-           typed trees evaluated under random int/bool bindings against a reference evaluator. Non-trivial = >=2 operators \
+           typed trees evaluated under random int/bool bindings against a reference evaluator; runs of 1..4 '!' / '-' over an \
+           operand pool of every type, literal and bound, every grouping of the run (--x, -(-x), - -x) evaluating alike. Non-trivial = >=2 operators \
            of different precedence, or two of equal precedence whose grouping is observable (- / % relations), or a ?:; \
            distinct by rendered source / expected shape.",
     assumptions: &[
@@ -495,9 +496,125 @@ fn binds_tv(env: &[(String, Tv)]) -> Value {
     Value::Object(m)
 }
 
+
+// ---------------------------------------------------------------------------
+// unary runs: "--x" is -(-x), "!!x" is !(!x) — whatever the operand
+
+/// all ways of splitting a run of n signs into parenthesised groups (compositions of n)
+fn compositions(n: usize) -> Vec<Vec<usize>> {
+    if n == 0 {
+        return vec![vec![]];
+    }
+    let mut out = Vec::new();
+    for first in 1..=n {
+        for mut rest in compositions(n - first) {
+            let mut c = vec![first];
+            c.append(&mut rest);
+            out.push(c);
+        }
+    }
+    out
+}
+
+fn run_text(sign: &str, comp: &[usize], operand: &str, spaced: bool) -> String {
+    let sep = if spaced { " " } else { "" };
+    let mut s = String::new();
+    for (i, k) in comp.iter().enumerate() {
+        if i > 0 {
+            s.push('(');
+        }
+        for _ in 0..*k {
+            s.push_str(sign);
+            s.push_str(sep);
+        }
+    }
+    s.push_str(operand);
+    for _ in 1..comp.len() {
+        s.push(')');
+    }
+    s
+}
+
+fn unary_pool() -> Vec<V> {
+    let mut p = super::c03::numeric_pool();
+    p.extend([
+        V::Bool(true),
+        V::Bool(false),
+        V::s(""),
+        V::s("s"),
+        V::Null,
+        V::List(vec![]),
+        V::List(vec![V::Int(1)]),
+        V::Bytes(vec![]),
+        V::Bytes(vec![1]),
+        V::Map(Default::default()),
+    ]);
+    p
+}
+
+/// one operand under a run of n signs: every grouping of the run evaluates alike
+fn check_unary_run(sign: &str, n: usize, v: &V, sub: &str, acc: &mut Acc) -> Vec<Failure> {
+    let Some(lit) = v.lit() else { return vec![] };
+    let class = format!("unary-run:{}{}:{}", sign, n, v.type_name());
+    acc.case(sub, &format!("{}x{} {}", sign, n, v.canon()), n >= 2, &class);
+    let binds = vec![("x".to_string(), v.clone())];
+    let mut out = Vec::new();
+    for (form, operand, b) in [("lit", lit.as_str(), &[][..]), ("var", "x", &binds[..])] {
+        let base_src = run_text(sign, &[n], operand, false);
+        let base = eval(&base_src, b).res.sum();
+        acc.sample(&class, || json!({"source": base_src, "x": v.canon(), "result": base.show()}));
+        if base.is_panic() {
+            out.push(Failure::new(
+                "c02:unary-run:panic",
+                format!("{} with x={} panicked: {}", base_src, v.canon(), base.show()),
+                json!({"kind": "unary", "sign": sign, "n": n, "operand": super::c03::vjson(v)}),
+            ));
+            continue;
+        }
+        let mut variants: Vec<String> = compositions(n).iter().map(|c| run_text(sign, c, operand, false)).collect();
+        variants.push(run_text(sign, &[n], operand, true));
+        variants.push(format!("{}({})", sign.repeat(n), operand));
+        for src in variants {
+            if src == base_src {
+                continue;
+            }
+            let r = eval(&src, b).res.sum();
+            acc.eval_only(sub, 1);
+            if r.coarse() != base.coarse() {
+                out.push(Failure::new(
+                    format!("c02:unary-run:{}:{}:grouping-differs", if sign == "!" { "not" } else { "neg" }, form),
+                    format!("{:?} -> {} but {:?} -> {} (x={})", base_src, base.show(), src, r.show(), v.canon()),
+                    json!({"kind": "unary", "sign": sign, "n": n, "operand": super::c03::vjson(v), "form": form,
+                           "source": base_src, "other": src}),
+                ));
+                break;
+            }
+        }
+    }
+    out
+}
+
+fn unary_runs(opts: &Opts, acc: &mut Acc) {
+    let mut pts: Vec<(&'static str, usize, V)> = Vec::new();
+    for v in unary_pool() {
+        for sign in ["!", "-"] {
+            for n in 1..=4 {
+                pts.push((sign, n, v.clone()));
+            }
+        }
+    }
+    par_chunks(acc, opts.threads, &pts, |(s, n, v), a| {
+        for f in check_unary_run(s, *n, v, "unary-runs", a) {
+            a.fail(f);
+        }
+    });
+    acc.mark_exhaustive("unary-runs", "runs of 1..4 '!' / '-' x every grouping of the run x operand pool (all types) x literal / bound form");
+}
+
 // ---------------------------------------------------------------------------
 
 fn run(opts: &Opts, acc: &mut Acc) {
+    unary_runs(opts, acc);
     if opts.is_dbg() {
         // parsing is profile independent; the dbg part only repeats the evaluation sub-run
         random_genomes(acc, opts, "eval", 3000, 96, |gn, a| check_eval(gn, "eval", a));
@@ -721,6 +838,18 @@ fn replay(_opts: &Opts, d: &Value, acc: &mut Acc) {
                     format!("{:?} evaluated to {}", src, r.show()),
                     d.clone(),
                 ));
+            }
+        }
+        "unary" => {
+            let sign = if d.get("sign").and_then(|s| s.as_str()) == Some("!") { "!" } else { "-" };
+            let n = d.get("n").and_then(|n| n.as_u64()).unwrap_or(2) as usize;
+            match d.get("operand").and_then(super::c03::vunjson) {
+                Some(v) => {
+                    for f in check_unary_run(sign, n, &v, "replay", acc) {
+                        acc.fail(f);
+                    }
+                }
+                None => acc.inconclusive.push("bad C02 unary replay file".into()),
             }
         }
         _ => acc.inconclusive.push(format!("unknown C02 replay kind {:?}", kind)),
